@@ -417,14 +417,15 @@ struct StreamsHarness : vh::Harness {
         kind = kMemFixed;
         return "ok";
       }
-      if (w.size() == 3 && w[1] == "file") {
+      if (w.size() == 3 && (w[1] == "file" || w[1] == "filew")) {
+        // `file`: existing content, opened "r+"; `filew`: the same file opened "w+" (truncated: an empty byte array)
         path = out_dir + "/c19_file.bin";
         std::string b = vh::unhex(w[2]);
         FILE *f = fopen(path.c_str(), "wb");
         if (!f) { perror("tmp file"); exit(3); }
         if (!b.empty() && fwrite(b.data(), 1, b.size(), f) != b.size()) { perror("tmp file"); exit(3); }
         fclose(f);
-        dmlc::Stream *st = dmlc::Stream::Create(path.c_str(), "r+");
+        dmlc::Stream *st = dmlc::Stream::Create(path.c_str(), w[1] == "file" ? "r+" : "w+");
         dmlc::SeekStream *ss = dynamic_cast<dmlc::SeekStream *>(st);
         if (!ss) { fprintf(stderr, "Stream::Create did not return a SeekStream\n"); exit(3); }
         strm.reset(ss);
@@ -461,7 +462,7 @@ struct StreamsHarness : vh::Harness {
     auto w0 = vh::split_ws(c.ops[0]);
     Ref r;
     r.kind = w0[1] == "memstr" ? kMemStr : w0[1] == "memfixed" ? kMemFixed : kFile;
-    r.data = vh::unhex(w0[2]);
+    r.data = w0[1] == "filew" ? std::string() : vh::unhex(w0[2]);
     bool closed = false;
     for (size_t i = 1; i < c.ops.size(); ++i) {
       auto w = vh::split_ws(c.ops[i]);
@@ -835,7 +836,7 @@ int main(int argc, char **argv) {
   struct Cfg { const char *open; size_t len; };
   const std::vector<Cfg> cfgs = {{"open memstr -", 0},          {"open memstr 414243", 3},  {"open memfixed 30313233", 4},
                                  {"open memfixed -", 0},        {"open memfixed 30", 1},    {"open file 4142", 2},
-                                 {"open file -", 0}};
+                                 {"open file -", 0},            {"open filew 4142", 0}};
   for (size_t ci = 0; ci < cfgs.size(); ++ci) {
     const Cfg &cf = cfgs[ci];
     const bool file = strstr(cf.open, "file") != nullptr;
@@ -880,11 +881,12 @@ int main(int argc, char **argv) {
     size_t ncases = T ? 150 : 25;
     for (size_t it = 0; it < ncases; ++it) {
       Case c;
-      const char *name = k == 0 ? "memstr" : k == 1 ? "memfixed" : "file";
+      const char *name = k == 0 ? "memstr" : k == 1 ? "memfixed" : (it % 3 == 2 ? "filew" : "file");
       c.kind = std::string(name) + " random";
       size_t init = k == 1 ? rng.below(rng.chance(1, 4) ? 300 : 40) : rng.below(20);
       std::string content = rand_bytes(rng, init);
       c.ops.push_back(std::string("open ") + name + " " + vh::hex(content));
+      if (k == 2 && it % 3 == 2) init = 0;
       uint64_t len = init, cur = 0;  // rough tracking, only to aim positions near the end
       size_t nops = (T ? 400 : 150) + rng.below(it % 5 == 0 ? (T ? 6000 : 2500) : 300);
       for (size_t j = 0; j < nops; ++j) {
